@@ -19,4 +19,4 @@ Extraction "model.ml"
   ts_create ts_add ts_write ts_write_end ts_read ts_skip
   write_table read_slices read_table
   utf8_to_iso iso_to_utf8
-  mst0 obj_build obj_copy_m obj_destroy va_create_plain_m va_destroy va_get_values_plain_m.
+  mst0 obj_build obj_copy_m obj_destroy va_create_plain_m va_create_bit_m va_destroy va_get_values_plain_m.
